@@ -488,7 +488,12 @@ type seqStep struct {
 	evs   []dEvent
 }
 
-func genSeqOp(rng *hx.Rng, known []uint32, names map[uint32]string, visible map[uint32]bool, last uint32) (dOp, bool, string) {
+func genSeqOp(rng *hx.Rng, known []uint32, names map[uint32]string, visible, stagedSet map[uint32]bool, last uint32) (dOp, bool, string) {
+	var stg []uint32
+	for id := range stagedSet {
+		stg = append(stg, id)
+	}
+	sort.Slice(stg, func(a, b int) bool { return stg[a] < stg[b] })
 	var vis []uint32
 	for id := range visible {
 		vis = append(vis, id)
@@ -513,7 +518,15 @@ func genSeqOp(rng *hx.Rng, known []uint32, names map[uint32]string, visible map[
 		}
 	}
 	name := seqNames[rng.Intn(len(seqNames))]
-	switch k := rng.Intn(100); {
+	k := rng.Intn(100)
+	// steer towards operations that can succeed in the current state
+	if len(stg) > 0 && k < 38 && rng.Chance(0.4) {
+		k = 40 // ready
+	}
+	if len(vis) > 0 && k < 38 && rng.Chance(0.3) {
+		k = rng.Pick(55, 70, 82, 95) // unregister, update, service, resolve
+	}
+	switch {
 	case k < 30:
 		i := genInfo(rng, name, uint32(rng.Pick(0, 0, 0, 7)))
 		if rng.Chance(0.15) {
@@ -525,9 +538,19 @@ func genSeqOp(rng *hx.Rng, known []uint32, names map[uint32]string, visible map[
 		// the Namespace adapter's Reserve: RegisterService with the local info
 		return dOp{Kind: opRegister, Info: dInfo{Name: name, Machine: seqMachine, Pid: 1, Endpoints: []string{seqAddr}}}, true, "ns-reserve"
 	case k < 52:
-		return dOp{Kind: opReady, ID: pickID()}, rng.Chance(0.3), "ready"
+		id := pickID()
+		if len(stg) > 0 && rng.Chance(0.65) {
+			id = stg[rng.Intn(len(stg))]
+		}
+		return dOp{Kind: opReady, ID: id}, rng.Chance(0.3), "ready"
 	case k < 66:
-		return dOp{Kind: opUnregister, ID: pickID()}, rng.Chance(0.3), "unregister"
+		id := pickID()
+		if len(vis) > 0 && rng.Chance(0.5) {
+			id = vis[rng.Intn(len(vis))]
+		} else if len(stg) > 0 && rng.Chance(0.3) {
+			id = stg[rng.Intn(len(stg))]
+		}
+		return dOp{Kind: opUnregister, ID: id}, rng.Chance(0.3), "unregister"
 	case k < 80:
 		id := pickID()
 		if len(vis) > 0 && rng.Chance(0.6) {
@@ -568,11 +591,12 @@ type seqJudge struct {
 	lastReg  int64
 	names    map[uint32]string // name registered under an id
 	visible  map[uint32]bool
+	staged   map[uint32]bool
 	failures [][2]string
 }
 
 func newSeqJudge(last0 uint32) *seqJudge {
-	return &seqJudge{lastReg: int64(last0), names: map[uint32]string{}, visible: map[uint32]bool{}}
+	return &seqJudge{lastReg: int64(last0), names: map[uint32]string{}, visible: map[uint32]bool{}, staged: map[uint32]bool{}}
 }
 
 func (j *seqJudge) fail(clause, detail string) {
@@ -591,18 +615,21 @@ func (j *seqJudge) step(s *seqDir, st seqStep, before map[uint32]string) {
 		}
 		j.lastReg = int64(r.ID)
 		j.names[r.ID] = o.Info.Name
+		j.staged[r.ID] = true
 	}
 	// (5) signals: exactly one per transition
 	var want []dEvent
 	if o.Kind == opReady && r.Kind == rOk {
 		want = []dEvent{{true, o.ID, j.names[o.ID]}}
 		j.visible[o.ID] = true
+		delete(j.staged, o.ID)
 	}
 	if o.Kind == opUnregister && r.Kind == rOk {
 		if j.visible[o.ID] {
 			want = []dEvent{{false, o.ID, j.names[o.ID]}}
 		}
 		delete(j.visible, o.ID)
+		delete(j.staged, o.ID)
 	}
 	if fmt.Sprint(want) != fmt.Sprint(st.evs) {
 		j.fail("signals", fmt.Sprintf("%v -> %v emitted %s, the transition calls for %s", o, r, evTerms(st.evs), evTerms(want)))
@@ -628,6 +655,7 @@ func (j *seqJudge) step(s *seqDir, st seqStep, before map[uint32]string) {
 	for _, i := range l {
 		listed = append(listed, i.ServiceId)
 	}
+	sort.Slice(listed, func(a, b int) bool { return listed[a] < listed[b] }) // the order of the list is the model's business
 	if fmt.Sprint(vis) != fmt.Sprint(listed) {
 		j.fail("visibility", fmt.Sprintf("services lists ids %v, ready-and-not-unregistered ids are %v", listed, vis))
 	}
@@ -681,7 +709,7 @@ func infoTerms(l []dInfo) string {
 }
 
 // runSeq runs one sequence (ops given, or generated when ops == nil) and returns the case term
-func runSeq(rng *hx.Rng, last0 uint32, length int, fixed []dOp) (steps []seqStep, kinds []string, j *seqJudge, term string, wrapped bool) {
+func runSeq(rng *hx.Rng, last0 uint32, length int, fixed []seqStep) (steps []seqStep, kinds []string, j *seqJudge, term string, wrapped bool) {
 	s := newSeqDir(last0)
 	j = newSeqJudge(last0)
 	var known []uint32
@@ -695,9 +723,9 @@ func runSeq(rng *hx.Rng, last0 uint32, length int, fixed []dOp) (steps []seqStep
 		var via bool
 		kind := "fixed"
 		if fixed != nil {
-			o = fixed[k]
+			o, via = fixed[k].op, fixed[k].viaNS
 		} else {
-			o, via, kind = genSeqOp(rng, known, j.names, j.visible, last)
+			o, via, kind = genSeqOp(rng, known, j.names, j.visible, j.staged, last)
 		}
 		stg0, svc0, _ := s.state()
 		before := idNames(stg0, svc0)
@@ -757,7 +785,7 @@ func runC15(res *hx.Result, rng *hx.Rng, tier string, outdir string) {
 		"valid and separately broken infos, direct and Namespace-adapter calls, initial counter 0 or next to 2^32; " +
 		"concurrent: 3 remote clients x 3..4 calls + 1..2 local goroutines (NewService/Terminate/Resolve) per history; " +
 		"non-trivial = a ready->unregister transition occurs, or >= 2 calls of different threads overlap; distinct by sha256 of the case text"
-	nSeq, nHist := 300, 24
+	nSeq, nHist := 400, 24
 	if tier == "thorough" {
 		nSeq, nHist = 10000, 400
 	}
@@ -809,9 +837,23 @@ func runC15(res *hx.Result, rng *hx.Rng, tier string, outdir string) {
 		fmt.Sprintf("Definition cfg_obs := {| cfg_unsync := %s; cfg_wrap := %s |}.", hx.Bool(unsync), hx.Bool(wrapOn)))
 
 	// ---- sequential ----
+	shrunk := 0
 	reportSeq := func(steps []seqStep, j *seqJudge, last0 uint32, wrapped bool) {
+		seen := map[string]bool{}
 		for _, f := range j.failures {
-			d := fmt.Sprintf("initial lastID %d; sequence: %s; %s", last0, seqText(steps), f[1])
+			if seen[f[0]] {
+				continue // one report per clause and sequence
+			}
+			seen[f[0]] = true
+			text, why := seqText(steps), f[1]
+			if shrunk < 8 {
+				shrunk++
+				small, w := shrinkSeq(last0, steps, f[0])
+				if w != "" {
+					text, why = seqText(small), w
+				}
+			}
+			d := fmt.Sprintf("initial lastID %d; sequence: %s; %s", last0, text, why)
 			if wrapped && wrapOn {
 				res.FailKnown(f[0], d, "id_wrap")
 			} else {
@@ -826,7 +868,7 @@ func runC15(res *hx.Result, rng *hx.Rng, tier string, outdir string) {
 		} else if rng.Chance(0.05) {
 			last0 = uint32(rng.Intn(1000))
 		}
-		steps, kinds, j, term, wrapped := runSeq(rng, last0, 1+rng.Intn(25), nil)
+		steps, kinds, j, term, wrapped := runSeq(rng, last0, 3+rng.Intn(23), nil)
 		reportSeq(steps, j, last0, wrapped)
 		for _, k := range kinds {
 			res.Dist("op:" + k)
@@ -866,6 +908,40 @@ func tail(s string, n int) string {
 
 // exhaustiveSeq: every sequence up to length 5 over 2 names x 3 ids, judged by the oracles;
 // one in 97 (by hash) is also written for the in-Coq comparison.
+// shrinkSeq: shortest failing prefix, then greedy removal of single operations while the
+// same clause still fails on the implementation
+func shrinkSeq(last0 uint32, steps []seqStep, clause string) ([]seqStep, string) {
+	fails := func(ss []seqStep) ([]seqStep, string) {
+		st, _, j, _, _ := runSeq(nil, last0, 0, ss)
+		for _, f := range j.failures {
+			if f[0] == clause {
+				return st, f[1]
+			}
+		}
+		return nil, ""
+	}
+	cur, why := []seqStep(nil), ""
+	for n := 1; n <= len(steps); n++ {
+		if st, w := fails(steps[:n]); st != nil {
+			cur, why = st, w
+			break
+		}
+	}
+	if cur == nil {
+		return nil, ""
+	}
+	for changed := true; changed; {
+		changed = false
+		for i := len(cur) - 2; i >= 0; i-- {
+			cand := append(append([]seqStep{}, cur[:i]...), cur[i+1:]...)
+			if st, w := fails(cand); st != nil {
+				cur, why, changed = st, w, true
+			}
+		}
+	}
+	return cur, why
+}
+
 func exhaustiveSeq(res *hx.Result, cf *hx.Cases, rng *hx.Rng, report func([]seqStep, *seqJudge, uint32, bool)) {
 	mk := func(n string) dInfo { return dInfo{Name: n, Machine: "m", Pid: 1, Endpoints: []string{"e"}} }
 	var alpha []dOp
@@ -882,8 +958,8 @@ func exhaustiveSeq(res *hx.Result, cf *hx.Cases, rng *hx.Rng, report func([]seqS
 	alpha = append(alpha, dOp{Kind: opServices})
 	maxLen := 5
 	count := 0
-	var rec func(prefix []dOp)
-	rec = func(prefix []dOp) {
+	var rec func(prefix []seqStep)
+	rec = func(prefix []seqStep) {
 		if len(prefix) > 0 {
 			steps, _, j, term, wrapped := runSeq(rng, 0, 0, prefix)
 			report(steps, j, 0, wrapped)
@@ -897,7 +973,7 @@ func exhaustiveSeq(res *hx.Result, cf *hx.Cases, rng *hx.Rng, report func([]seqS
 			return
 		}
 		for _, o := range alpha {
-			rec(append(append([]dOp{}, prefix...), o))
+			rec(append(append([]seqStep{}, prefix...), seqStep{op: o}))
 		}
 	}
 	rec(nil)
